@@ -68,6 +68,13 @@ CallAgain == /\ vis = Len(wire) /\ vis > 0 /\ verdict = "more"
              /\ UNCHANGED <<wire, vis, cfg, prev, na>>
 NextA == Send \/ Call \/ CallAgain
 SpecA == Init /\ [][NextA]_vars
+\* Liveness (beyond the listed properties; checked on small instances without the VIEW): with a caller that keeps
+\* calling (weak fairness of Call) every behaviour reaches, and stays in, a state where the parser has seen every byte
+\* sent so far or has given a definitive verdict -- the protocol cannot get stuck with unseen bytes while "more" is
+\* being asked for (Call is enabled exactly then).
+FairSpec == Init /\ [][Next]_vars /\ WF_vars(Call)
+CaughtUp == vis = Len(wire) \/ verdict # "more"
+Progress == []<>CaughtUp
 \* Also beyond the listed properties: while the parser asks for more bytes its continuation offset never moves
 \* backwards (the caller may discard what lies before it).  An action property: [][...]_vars.
 MonotoneCont == [][(verdict' = "more" /\ vis' > 0) => cont' >= cont]_vars
